@@ -119,8 +119,8 @@ def crafted_script(rng):
 
 def gen_cases(rng, tier, escalate=False):
     mult = 3 if escalate else 1
-    n_gen = {"quick": 26, "thorough": 420}[tier] * mult
-    n_craft = {"quick": 14, "thorough": 180}[tier] * mult
+    n_gen = {"quick": 26, "thorough": 200}[tier] * mult
+    n_craft = {"quick": 14, "thorough": 100}[tier] * mult
     per = {"quick": 16, "thorough": 24}[tier]
     cases = []
     peers = airgen.PEERS[:3]
